@@ -216,10 +216,10 @@ def run(ctx):
                     viol('an unrecognised / malformed attribute does not keep its received value octets', orig=a['raw'][:200]); break
             if not has_invalid and typed_line.get(2 * i) != typed_line.get(2 * i + 1) and c['cfg']['four']:
                 viol('typed attribute values differ after re-encoding', orig=typed_line.get(2 * i, '')[:300], again=typed_line.get(2 * i + 1, '')[:300])
-            # through the map: last attribute per code, ascending, without the MP attributes
+            # through the map: first attribute per code (RFC 7606 3.g), ascending, without the MP attributes
             exp = {}
             for a in oi:
-                if a['code'] not in (14, 15):
+                if a['code'] not in (14, 15) and a['code'] not in exp:
                     exp[a['code']] = a['hex']
             want = ''.join(exp[k] for k in sorted(exp)) or '-'
             if r.get('pamap', '')[3:] != want:
@@ -274,7 +274,7 @@ def run(ctx):
                 'every flag nibble (extended-length flag on short values included), recognised attributes with malformed values of 0..1000 '
                 'octets, duplicated type codes, malformed MP NLRI; re-encoded directly, through PaMap and through a seeded builder; the '
                 'octets are decoded again by the implementation and compared attribute by attribute (value, canonical / received flags, '
-                'typed getters), map = last per type in ascending order, builder = same attributes and NLRI; plus model = implementation',
+                'typed getters), map = first per type in ascending order, builder = same attributes and NLRI; plus model = implementation',
         'input_distribution': stats,
     })
     ctx.samples = [texts[0][:300], by.get(0, '')[:300]]
